@@ -346,7 +346,7 @@ def _mod_uuid(it, m):
 def opaque_attr(it, obj, name, node):
     if obj.kind == 'datetime' and name == 'strftime':
         return Builtin('strftime', lambda it_, a, k, n: SStr([('opaque', 'strftime', (obj, a[0]))]))
-    if obj.kind == 'plist':
+    if obj.kind.startswith('plist'):
         if name == 'items':
             return Builtin('items', lambda it_, a, k, n: OpaqueVal('plist.items', (obj,)))
         if name == 'get':
